@@ -190,7 +190,8 @@ class TrioStreamModel:
     def symbolic(self, interp, name):
         ctx = interp.ctx
         obj = SObj("trio:Stream", {"is_ssl": SymBool(z3.Bool(ctx.fresh_name(name + ".is_ssl"))), "closed": SymBool(z3.Bool(ctx.fresh_name(name + ".closed"))),
-                                   "sock": interp.make_symbolic("obj io:Socket", name + ".socket"), "eof_seen": False}, tag=name)
+                                   "sock": interp.make_symbolic("obj io:Socket", name + ".socket"), "eof_seen": False,
+                                   "alpn": interp.make_symbolic("opt str", name + ".alpn")}, tag=name)  # what TLS negotiated (meaningful when is_ssl)
         return obj
 
     def _ssl_only(self, interp, obj, fr, attr):
